@@ -1229,6 +1229,10 @@ class Message(ABC):
                 # Booleans use a varint encoding, so convert it to true/false.
                 value = value > 0
             elif meta.proto_type == TYPE_ENUM:
+                # Enums are encoded like int32: negative numbers arrive as
+                # 64-bit two's complement varints.
+                value = value & 0xFFFFFFFF
+                value = int((value ^ 0x80000000) - 0x80000000)
                 # Convert enum ints to python enum instances
                 value = self._betterproto.cls_by_field[field_name].try_value(value)
         elif wire_type in (WIRE_FIXED_32, WIRE_FIXED_64):
